@@ -43,7 +43,8 @@ class FakeTransport(object):
         return default
 
     def is_closing(self):
-        return self._ep.client_closed
+        # (a connection the peer has reset is lost: asyncio closes its transport at once)
+        return self._ep.client_closed or self._ep.was_reset
 
     def close(self):
         self._ep._client_close()
@@ -106,6 +107,7 @@ class Endpoint(object):
         self.writes = []
         self.client_closed = False
         self.server_closed = False
+        self.was_reset = False
         self.write_error = None
         self.delivered = []           # pieces actually handed to the reader, in order
         self.reader = LazyReader(self, limit=getattr(net, 'reader_limit', 2 ** 16))
@@ -148,6 +150,13 @@ class Endpoint(object):
             self.server_closed = True
             self.out.append(_EOF)
             self._pump_soon()
+
+    def reset_now(self):
+        """The peer resets the connection (TCP RST) - also while the client is not reading: asyncio reports it as
+        connection_lost(exc), i.e. the reader gets the exception (not an end of stream) and the transport is closed."""
+        self.was_reset = True
+        self.out.clear()
+        self.reader.set_exception(ConnectionResetError(errno.ECONNRESET, 'Connection reset by peer'))
 
     def fail(self, exc):
         """The connection breaks: the pending/next read raises exc (after the queued data)."""
